@@ -19,7 +19,7 @@ func C13(r *core.Run) {
 		"(R13.2) IsLatest is the identity test of the listed version with the object's current version; (R09.1n) the version iterator's nilable fields are guarded; " +
 		"(R13.4) the handler substitutes 'null' for empty version ids on every entry and the backend masks ids only while the bucket was never versioned; " +
 		"(R13.5) every appended entry passes the page counter and its bound test before the next one; (R13.6) the marker-combination guards precede the backend call; " +
-		"(R13.7) listed Size/ETag/Key come from the listed version itself and delete markers are listed as such. (R05.7) a delete marker that becomes current has a generated id, so a page ending on it can be continued. (R05.5, shared) every stored version carries a fresh, non-empty id from the generator: the id is the page marker of version listings. (paging elements) the continuation markers are serialised under the element names the protocol defines."
+		"(R13.7) listed Size/ETag/Key come from the listed version itself and delete markers are listed as such. (R05.7) a delete marker that becomes current has a generated id, so a page ending on it can be continued. (R05.5, shared) every stored version carries a fresh, non-empty id from the generator: the id is the page marker of version listings. (paging elements) the continuation markers are serialised under the element names the protocol defines. (R13.10) with markers given the iterators are positioned by Seek before they are advanced, the version-id-marker applies to the first key only, and both look-aheads reach IsTruncated."
 	r.NotDecided = "exactly-once across pages, order of versions inside a key, prefix grouping semantics (Prefix.Match), that the markers returned make the next page start at the right entry"
 	ctx := oblig.NewCtx(r.P)
 	installNonNilHook(r, ctx)
@@ -42,6 +42,8 @@ func C13(r *core.Run) {
 	rule136(r)
 	rule137(r, fn)
 	rule138(r, fn)
+	rule1310(r, fn)
+	rule1311(r)
 }
 
 func resultFieldStores(r *core.Run, fn *ssa.Function, field string) []*ssa.Store {
@@ -512,4 +514,382 @@ func rule138(r *core.Run, fn *ssa.Function) {
 		p0 = pos(r, at)
 	}
 	r.Check(!skip, "R13.8", key(name, "no silent skip of a matching key"), p0, "every matching, ungrouped key has its versions iterated", "a key that matches the prefix can be skipped without its versions being listed (a condition other than 'prefix does not match' / 'grouped under a common prefix' continues the loop)")
+}
+
+// nonEmptyTests collects the comparisons in fn that test the given string
+// field for emptiness, mapped to the truth value that means "non-empty":
+// `f != ""`, `f == ""`, `len(f) > 0`, `len(f) != 0`, `len(f) == 0`, ….
+func nonEmptyTests(r *core.Run, fn *ssa.Function, field string) map[ssa.Value]bool {
+	out := map[ssa.Value]bool{}
+	isField := func(v ssa.Value) bool { return isLoadOf(r, core.Forward(v), field) }
+	core.Instrs(fn, func(in ssa.Instruction) {
+		b, ok := in.(*ssa.BinOp)
+		if !ok {
+			return
+		}
+		x, y, op := b.X, b.Y, b.Op
+		if c, isC := x.(*ssa.Const); isC && c.Value != nil {
+			// constant on the left: mirror
+			x, y = y, x
+			switch op {
+			case token.LSS:
+				op = token.GTR
+			case token.GTR:
+				op = token.LSS
+			case token.LEQ:
+				op = token.GEQ
+			case token.GEQ:
+				op = token.LEQ
+			}
+		}
+		if c, isC := y.(*ssa.Const); isC && c.Value != nil && c.Value.ExactString() == `""` && isField(x) {
+			switch op {
+			case token.NEQ:
+				out[b] = true
+			case token.EQL:
+				out[b] = false
+			}
+			return
+		}
+		if lc, isCall := x.(*ssa.Call); isCall && r.P.CalleeName(lc) == "builtin:len" && len(lc.Call.Args) == 1 && isField(lc.Call.Args[0]) {
+			k, isK := core.ConstInt(y)
+			if !isK {
+				return
+			}
+			switch {
+			case (op == token.GTR && k == 0) || (op == token.NEQ && k == 0) || (op == token.GEQ && k == 1):
+				out[b] = true
+			case (op == token.EQL && k == 0) || (op == token.LEQ && k == 0) || (op == token.LSS && k == 1):
+				out[b] = false
+			}
+		}
+	})
+	return out
+}
+
+// rule1310 — a continued version listing resumes at the markers, and says
+// "truncated" whenever versions or keys remain.
+func rule1310(r *core.Run, fn *ssa.Function) {
+	r.Rule("R13.10", "ListBucketVersions (s3mem): (a) with a non-empty key-marker the key iterator is positioned with Seek(page.KeyMarker) before the listing loop advances it; (b) with a non-empty version-id-marker the version iterator of the first listed key is positioned with Seek(page.VersionIDMarker) before it is advanced, and only that of the first key (the seek is not reachable again from itself); (c) the look-ahead made when the page is full — versions.Next() of the key being listed — and the look-ahead on the key iterator both flow into IsTruncated, and no path from the version look-ahead to the final IsTruncated store carries the constant false")
+	name := fname(r, fn)
+	p0 := r.P.Pos(fn.Pos())
+	var seekK, seekV *ssa.Call
+	var keyNexts, verNexts []*ssa.Call
+	core.Instrs(fn, func(in ssa.Instruction) {
+		c, ok := in.(*ssa.Call)
+		if !ok {
+			return
+		}
+		switch r.P.CalleeName(c) {
+		case "goskipiter.(*Iterator).Seek":
+			if len(c.Call.Args) > 1 && isLoadOf(r, core.Forward(stripIface(c.Call.Args[1])), "gofakes3.ListBucketVersionsPage.KeyMarker") {
+				seekK = c
+			}
+		case "s3mem.(*bucketObjectIterator).Seek":
+			if len(c.Call.Args) > 1 && isLoadOf(r, core.Forward(c.Call.Args[1]), "gofakes3.ListBucketVersionsPage.VersionIDMarker") {
+				seekV = c
+			}
+		case "goskipiter.(*Iterator).Next":
+			keyNexts = append(keyNexts, c)
+		case "s3mem.(*bucketObjectIterator).Next":
+			verNexts = append(verNexts, c)
+		}
+	})
+	// (a)
+	if seekK == nil {
+		r.Violated("R13.10", key(name, "Seek(page.KeyMarker)"), p0, "the key iterator is never positioned at page.KeyMarker: a continued version listing restarts from the first key")
+	} else {
+		assume := nonEmptyTests(r, fn, "gofakes3.ListBucketVersionsPage.KeyMarker")
+		bad := ""
+		for _, nx := range keyNexts {
+			if core.ReachableFromEntryAssumingAvoiding(nx, assume, func(y ssa.Instruction) bool { return y == ssa.Instruction(seekK) }) {
+				bad = pos(r, nx)
+				break
+			}
+		}
+		// a key-marker inside the prefix reaches the seek
+		am := map[ssa.Value]bool{}
+		for k, v := range assume {
+			am[k] = v
+		}
+		core.Instrs(fn, func(in ssa.Instruction) {
+			if c, ok := in.(*ssa.Call); ok && r.P.CalleeName(c) == "gofakes3.(Prefix).Match" && core.Reaches(c, seekK) {
+				am[c] = true
+			}
+		})
+		r.Check(core.ReachableFromEntryAssuming(seekK, am), "R13.10", key(name, "matching key-marker reaches the seek"), pos(r, seekK), "a key-marker that matches the prefix is sought",
+			"a key-marker that matches the prefix does not reach Seek(page.KeyMarker) (the rejection is on the wrong side of the match)")
+		r.Check(len(assume) > 0 && bad == "", "R13.10", key(name, "Seek(page.KeyMarker)"), pos(r, seekK), sprintf("every way into the key loop with a non-empty key-marker passes the seek (%d emptiness test(s), %d Next call(s))", len(assume), len(keyNexts)),
+			"with a non-empty key-marker the key loop (Next at "+bad+") can be entered without Seek(page.KeyMarker): the continued listing restarts from the first key")
+	}
+	// (b)
+	if seekV == nil {
+		r.Violated("R13.10", key(name, "Seek(page.VersionIDMarker)"), p0, "the version iterator is never positioned at page.VersionIDMarker: a page that ended inside a key's versions is continued from that key's newest version")
+	} else {
+		assume := nonEmptyTests(r, fn, "gofakes3.ListBucketVersionsPage.VersionIDMarker")
+		n := len(assume)
+		for k, v := range nonEmptyTests(r, fn, "gofakes3.ListBucketVersionsPage.KeyMarker") {
+			assume[k] = v
+		}
+		bad := ""
+		for _, nx := range verNexts {
+			if nx.Call.Args[0] != seekV.Call.Args[0] && !sameValue(r, nx.Call.Args[0], seekV.Call.Args[0], 3) {
+				continue
+			}
+			if core.ReachableTrackingFlags(nil, nx, assume, func(y ssa.Instruction) bool {
+				if y == ssa.Instruction(seekV) {
+					return true
+				}
+				// a version already listed: the path is past the first key
+				if c, ok := y.(*ssa.Call); ok && r.P.CalleeName(c) == "s3mem.(*bucketObjectIterator).Next" {
+					return c != nx
+				}
+				return false
+			}) {
+				bad = pos(r, nx)
+				break
+			}
+		}
+		r.Check(n > 0 && bad == "", "R13.10", key(name, "Seek(page.VersionIDMarker)"), pos(r, seekV), "the first key's versions are advanced only after the seek when a version-id-marker is given",
+			"with a non-empty version-id-marker the first key's version iterator can be advanced (Next at "+bad+") without Seek(page.VersionIDMarker): versions already returned are listed again")
+		// a successful seek goes on to list
+		okOn := false
+		for _, nx := range verNexts {
+			if core.ReachableTrackingFlags(seekV, nx, map[ssa.Value]bool{seekV: true}, nil) {
+				okOn = true
+			}
+		}
+		r.Check(okOn, "R13.10", key(name, "successful version seek continues the listing"), pos(r, seekV), "the listing goes on when the seek found the marker",
+			"when Seek(page.VersionIDMarker) finds the marker the listing does not go on to list (the failure return is on the wrong side of the seek's result)")
+		again := core.ReachableTrackingFlags(seekV, seekV, map[ssa.Value]bool{}, nil)
+		r.Check(!again, "R13.10", key(name, "version-id-marker applies to the first key only"), pos(r, seekV), "the seek cannot be reached a second time",
+			"Seek(page.VersionIDMarker) can run again for a later key (the first-key flag is not cleared): the seek fails there and the listing answers an internal error, or skips that key's newer versions")
+	}
+	// (c)
+	var final []*ssa.Store
+	sts := resultFieldStores(r, fn, "gofakes3.ListBucketVersionsResult.IsTruncated")
+	for _, st := range sts {
+		last := true
+		for _, o := range sts {
+			if o != st && core.Reaches(st, o) {
+				last = false
+			}
+		}
+		if last {
+			final = append(final, st)
+		}
+	}
+	if len(final) == 0 {
+		return // R13.1 reports it
+	}
+	var look *ssa.Call
+	hasKeyLook := false
+	for _, st := range final {
+		for _, nx := range keyNexts {
+			if flowsOrDecides(nx, st.Val) {
+				hasKeyLook = true
+			}
+		}
+	}
+	for _, nx := range verNexts {
+		// the look-ahead: a Next whose result is not (only) a loop condition but flows into the stored flag
+		for _, st := range final {
+			if flowsOrDecides(nx, st.Val) {
+				look = nx
+			}
+		}
+	}
+	r.Check(hasKeyLook, "R13.10", key(name, "IsTruncated ⇐ keys remain"), pos(r, final[0]), "the key iterator's look-ahead flows into IsTruncated", "IsTruncated does not depend on whether keys remain after the page (no Next of the key iterator flows into it): a listing that stops between two keys is reported complete")
+	if look == nil {
+		r.Violated("R13.10", key(name, "IsTruncated ⇐ versions remain"), pos(r, final[0]), "IsTruncated does not depend on whether versions of the current key remain after the page (no look-ahead versions.Next() flows into it): a page that ends inside the last key's versions is reported complete and the remaining versions are never listed")
+		return
+	}
+	bad := ""
+	for _, st := range final {
+		vals, ok := core.ValuesOnPaths(look, st, st.Val)
+		if !ok {
+			bad = "exploration cut off"
+		}
+		for _, v := range vals {
+			if c, isC := v.(*ssa.Const); isC && c.Value != nil && c.Value.String() == "false" {
+				bad = "constant false at " + pos(r, st)
+			}
+		}
+	}
+	r.Check(bad == "", "R13.10", key(name, "IsTruncated ⇐ versions remain"), pos(r, look), "on every path from the version look-ahead the stored flag is the look-ahead, the key look-ahead, or true", "after the version look-ahead the stored IsTruncated can be the constant false ("+bad+"): remaining versions or keys are not reported")
+}
+
+// valueFlowsTo: does v reach w through phi edges only?
+func valueFlowsTo(v ssa.Value, w ssa.Value, depth int) bool {
+	if v == w {
+		return true
+	}
+	if depth == 0 {
+		return false
+	}
+	if ph, ok := w.(*ssa.Phi); ok {
+		for _, e := range ph.Edges {
+			if e != w && valueFlowsTo(v, e, depth-1) {
+				return true
+			}
+		}
+	}
+	return false
+}
+
+// flowsOrDecides: v reaches w through phi edges, or v (through phi edges,
+// possibly negated) is the condition of the branch that selects a constant
+// edge of a phi in w's closure — the shape of `a || b`, `a && b` and of
+// `flag := false; if v { flag = true }`.
+func flowsOrDecides(v ssa.Value, w ssa.Value) bool {
+	if valueFlowsTo(v, w, 8) {
+		return true
+	}
+	ph, ok := w.(*ssa.Phi)
+	if !ok {
+		return false
+	}
+	phis := []*ssa.Phi{ph}
+	for _, x := range phiClosure(ph) {
+		if q, isPhi := x.(*ssa.Phi); isPhi {
+			phis = append(phis, q)
+		}
+	}
+	for _, q := range phis {
+		for i, e := range q.Edges {
+			if _, isC := e.(*ssa.Const); !isC || i >= len(q.Block().Preds) {
+				continue
+			}
+			// the branch that selects this edge: the last instruction of the predecessor, or of its single-predecessor chain
+			b := q.Block().Preds[i]
+			for hops := 0; hops < 3 && b != nil; hops++ {
+				if iff, isIf := b.Instrs[len(b.Instrs)-1].(*ssa.If); isIf {
+					c := iff.Cond
+					for k := 0; k < 3; k++ {
+						if u, isU := c.(*ssa.UnOp); isU && u.Op == token.NOT {
+							c = u.X
+						}
+					}
+					if valueFlowsTo(v, c, 8) {
+						return true
+					}
+					break
+				}
+				if len(b.Preds) != 1 {
+					break
+				}
+				b = b.Preds[0]
+			}
+		}
+	}
+	return false
+}
+
+// rule1311 — the version iterator's Seek finds exactly the marker.
+func rule1311(r *core.Run) {
+	r.Rule("R13.11", "bucketObjectIterator.Seek(key) — the resumption point of a version listing inside one key: assuming the archive iterator's Seek(key) succeeded, Seek answers true (a `return true` is reachable, no `return false` is); assuming it failed (or there is no archive) and the current version's id equals key, the same; assuming neither, no `return true` is reachable. The three assumptions are made on the SSA values of the archive Seek call and of the comparison of bucketData.versionID with the key parameter (the nil tests are assumed non-nil): a marker that names a listed version is found, an unknown marker is not")
+	fn := mustFunc(r, "s3mem.(*bucketObjectIterator).Seek")
+	if fn == nil {
+		return
+	}
+	name := fname(r, fn)
+	p0 := r.P.Pos(fn.Pos())
+	kp := paramNamed(fn, "key")
+	var seeks []ssa.Value
+	var eqs []*ssa.BinOp
+	nonNil := map[ssa.Value]bool{}
+	core.Instrs(fn, func(in ssa.Instruction) {
+		switch x := in.(type) {
+		case *ssa.Call:
+			if strings.HasSuffix(r.P.CalleeName(x), "skiplist.Iterator.Seek") {
+				seeks = append(seeks, x)
+			}
+		case *ssa.BinOp:
+			if x.Op != token.EQL && x.Op != token.NEQ {
+				return
+			}
+			if core.IsNilConst(x.X) || core.IsNilConst(x.Y) {
+				nonNil[x] = x.Op == token.NEQ
+				return
+			}
+			a, b := core.Forward(x.X), core.Forward(x.Y)
+			if (isLoadOf(r, a, "s3mem.bucketData.versionID") && b == ssa.Value(kp)) || (isLoadOf(r, b, "s3mem.bucketData.versionID") && a == ssa.Value(kp)) {
+				eqs = append(eqs, x)
+			}
+		}
+	})
+	if len(seeks) == 0 || len(eqs) == 0 || kp == nil {
+		r.Violated("R13.11", key(name, "anchors"), p0, sprintf("Seek no longer consults the archive iterator (%d Seek call(s)) and the current version's id (%d comparison(s) with key): a version-id-marker cannot be found", len(seeks), len(eqs)))
+		return
+	}
+	type want struct {
+		label        string
+		seek, eq     bool
+		mustT, noneF bool // a true return must be reachable / no false return may be
+		noneT        bool
+	}
+	var rets []*ssa.Return
+	for _, ret := range core.Returns(fn) {
+		rets = append(rets, ret)
+	}
+	reach := func(assume map[ssa.Value]bool, val string) string {
+		for _, ret := range rets {
+			if len(ret.Results) != 1 {
+				continue
+			}
+			switch v := ret.Results[0].(type) {
+			case *ssa.Const:
+				if v.Value != nil && v.Value.String() == val && core.ReachableTrackingFlags(nil, ret, assume, nil) {
+					return pos(r, ret)
+				}
+			default:
+				// merged result: judge each constant edge by the reachability of its predecessor block
+				if ph, ok := v.(*ssa.Phi); ok {
+					for i, e := range ph.Edges {
+						c, isC := e.(*ssa.Const)
+						if !isC || c.Value == nil || c.Value.String() != val || i >= len(ph.Block().Preds) {
+							continue
+						}
+						pred := ph.Block().Preds[i]
+						if core.ReachableTrackingFlags(nil, pred.Instrs[len(pred.Instrs)-1], assume, nil) {
+							return pos(r, ret)
+						}
+					}
+				}
+			}
+		}
+		return ""
+	}
+	for _, w := range []want{
+		{label: "archive seek found the marker", seek: true, eq: false, mustT: true, noneF: true},
+		{label: "marker is the current version", seek: false, eq: true, mustT: true, noneF: true},
+		{label: "marker unknown", seek: false, eq: false, noneT: true},
+	} {
+		assume := map[ssa.Value]bool{}
+		for k, v := range nonNil {
+			assume[k] = v
+		}
+		for _, s := range seeks {
+			assume[s] = w.seek
+		}
+		for _, e := range eqs {
+			assume[e] = w.eq == (e.Op == token.EQL)
+		}
+		bad := ""
+		if w.mustT && reach(assume, "true") == "" {
+			bad = "no `return true` is reachable"
+		}
+		if w.noneF {
+			if at := reach(assume, "false"); at != "" {
+				bad = "`return false` at " + at + " is reachable"
+			}
+		}
+		if w.noneT {
+			if at := reach(assume, "true"); at != "" {
+				bad = "`return true` at " + at + " is reachable"
+			}
+		}
+		r.Check(bad == "", "R13.11", key(name, w.label), p0, "answer follows the two lookups",
+			"when "+w.label+": "+bad+" — a continued version listing answers an internal error for a marker it handed out itself, or accepts a marker that names nothing")
+	}
 }
